@@ -79,7 +79,33 @@ def fam_c03(man):
     return out
 
 
-FAMILIES = {'C03': fam_c03}
+def fam_c01_isvalid(man):
+    """is_valid(x, o) = (validate(x, o) returned a non-empty value), and it raises only what validate raises
+    outside the ValidationError hierarchy"""
+    F = man['functions']
+    out = []
+    for mod, m in sorted(man['modules'].items()):
+        v, iv = F.get(mod + ':validate'), F.get(mod + ':is_valid')
+        if not v or not iv or not v['ok'] or not iv['ok'] or v['rtype'] != 'str' or iv['rtype'] != 'bool':
+            continue
+        if iv['params'] != v['params'] or iv['ptypes'] != v['ptypes']:
+            continue
+        ns = m['ns']
+        today = '(today__ : Date) ' if (v['today'] or iv['today']) else ''
+        bs = ' '.join('(%s : %s)' % (mangle(p) + "'", lean_type(t)) for p, t in zip(v['params'], v['ptypes']))
+        args = ''.join(' ' + mangle(p) + "'" for p in v['params'])
+        name = 'Props.Auto.C01v.%s.is_valid_eq' % ns
+        src = ('theorem %s %s%s :\n    %s%s%s =\n    (match %s%s%s with\n     | .ok v => .ok (!v.isEmpty)\n'
+               '     | .error e => if e.isValidation then .ok false else .error e) := by\n'
+               '  unfold %s\n  cases h : %s%s%s with\n  | ok v => rfl\n  | error e => cases e <;> rfl\n' % (
+                   name, today, bs, iv['lean'], ' today__' if iv['today'] else '', args,
+                   v['lean'], ' today__' if v['today'] else '', args, iv['lean'], v['lean'], ' today__' if v['today'] else '', args))
+        out.append({'name': name, 'ns': ns, 'covers': mod, 'family': 'C01v', 'src': src, 'imports': ['Gen.' + ns], 'prelude': 'open Py\n'})
+    return out
+
+
+FAMILIES = {'C03': fam_c03, 'C01v': fam_c01_isvalid}
+FAMILY_PROPERTY = {'C03': 'C03', 'C01v': 'C01'}
 
 
 def emit(all_candidates=False, only_family=None):
@@ -96,8 +122,8 @@ def emit(all_candidates=False, only_family=None):
         wanted = None
         if not all_candidates:
             try:
-                obl = json.load(open(os.path.join(common.VERIF, 'obligations', fam + '.json')))
-                wanted = {t['name'] for t in obl.get('theorems', []) if t.get('generated')}
+                obl = json.load(open(os.path.join(common.VERIF, 'obligations', FAMILY_PROPERTY[fam] + '.json')))
+                wanted = {t['name'] for t in obl.get('theorems', []) if t.get('generated') and t.get('family', fam) == fam}
             except (OSError, ValueError):
                 wanted = set()
         by_file = {}
